@@ -7,12 +7,15 @@
 EXTENDS S3, S3Range, Json
 
 CONSTANTS N, CfgName,
+          Versions,    \* "none"; "older": the ranges are read from an OLDER version by its id, the current version having another
+                       \* size; "marker": the same with a delete marker on top (versioned bucket: CfgName = "mem")
           LargeSizes   \* {} : sizes 0..N with every bound 0..N+2;  otherwise: these object sizes (several MiB) with
                        \* bounds at and around multiples of 1 MiB and around the end of the object
 VARIABLES size
 vars == <<size>>
 
-Cfg == CASE CfgName = "single" -> [DefaultCfg EXCEPT !.versioned = FALSE, !.paginate = FALSE, !.single = "bkt1"]
+Cfg == CASE CfgName = "mem" -> [DefaultCfg EXCEPT !.paginate = FALSE]
+         [] CfgName = "single" -> [DefaultCfg EXCEPT !.versioned = FALSE, !.paginate = FALSE, !.single = "bkt1"]
          [] OTHER -> [DefaultCfg EXCEPT !.versioned = FALSE, !.paginate = FALSE]
 B == "bkt1"
 K == <<107>>
@@ -60,7 +63,31 @@ Expected(n, c) ==
     THEN IF x.ok THEN ok @@ [or416 |-> TRUE] ELSE [st |-> 416, code |-> "InvalidRange"]
   ELSE IF x.ok THEN ok ELSE [st |-> 416, code |-> "InvalidRange"]
 
+\* the size of the version written on top of the one that is read: shorter for large n, longer for small n
+OtherSize(n) == IF n > (N \div 2) THEN n - ((N \div 2) + 1) ELSE n + (N \div 2) + 1
+VersionTour(n) ==
+  LET cs == SetToSeq(Cases)
+      m  == OtherSize(n)
+      ok == [st |-> 200, code |-> ""] IN
+  [h |-> <<[op |-> [op |-> "CreateBucket", b |-> B], r |-> ok],
+           [op |-> [op |-> "PutVersioning", b |-> B, status |-> "Enabled"], r |-> ok],
+           [op |-> [op |-> "PutObject", b |-> B, k |-> K, body |-> BodyOf(n), meta |-> <<>>, vid |-> "v1"],
+            r |-> ok @@ [etag |-> BodyOf(n), vid |-> "v1"]],
+           [op |-> [op |-> "PutObject", b |-> B, k |-> K, body |-> BodyOf(m), meta |-> <<>>, vid |-> "v2"],
+            r |-> ok @@ [etag |-> BodyOf(m), vid |-> "v2"]]>>
+         \o (IF Versions = "marker"
+               THEN <<[op |-> [op |-> "DeleteObject", b |-> B, k |-> K, vid |-> "v3"],
+                       r |-> [st |-> 204, code |-> "", vid |-> "v3", dm |-> TRUE]]>>
+               ELSE <<>>),
+   a |-> [i \in 1..Len(cs) |-> [op |-> [op |-> "GetObjectVersion", b |-> B, k |-> K, vid |-> "v1", range |-> cs[i].h],
+                                   r |-> Expected(n, cs[i])]]
+         \o <<[op |-> [op |-> "GetObjectVersion", b |-> B, k |-> K, vid |-> "v1"],
+               r |-> ok @@ [body |-> BodyOf(n), etag |-> BodyOf(n), vid |-> "v1"]],
+              [op |-> [op |-> "GetObjectVersion", b |-> B, k |-> K, vid |-> "v2"],
+               r |-> ok @@ [body |-> BodyOf(m), etag |-> BodyOf(m), vid |-> "v2"]]>>]
+
 Tour(n) ==
+  IF Versions # "none" THEN VersionTour(n) ELSE
   LET cs == SetToSeq(Cases)
       put == [op |-> "PutObject", b |-> B, k |-> K, body |-> BodyOf(n), meta |-> <<>>, vid |-> ""] IN
   \* h: the history that stores the object; a: the reads (a replay with --reopen restarts the backend between the two)
